@@ -668,12 +668,21 @@ impl<'r> Builder<'r> {
         let def_fields: Vec<String> = case.fields.iter().map(|(f, _)| f.clone()).collect();
         // spread source: a single input whose datum is this record type (data position only)
         let mut spread = None;
-        if td.record && pos == Pos::Datum && self.rng.chance(1, 2) {
+        // (for a variant type the source may hold any case of the type: a missing field is the source's field of
+        // the same position, the constructor index is the written case)
+        if pos == Pos::Datum && self.rng.chance(1, 2) {
             let c: Vec<String> = self.cur_tx.inputs.iter().filter(|i| !i.many && i.datum_is == Some(Ty::Custom(td.name.clone()))).map(|i| i.name.clone()).collect();
             if !c.is_empty() {
                 let src = self.rng.pick(&c).clone();
                 spread = Some(Box::new(self.in_ref(src, true)));
+                if !td.record {
+                    self.tag("spread-into-variant-case");
+                }
             }
+        }
+        let spread_only = spread.is_some() && self.rng.chance(1, 4);
+        if spread_only {
+            self.tag("spread-only-constructor");
         }
         if spread.is_none() && td.record && depth < 2 && !case.fields.is_empty() && self.rng.chance(1, 6) {
             // spread from another complete constructor expression
@@ -691,7 +700,7 @@ impl<'r> Builder<'r> {
         }
         for k in order {
             let (f, t) = &case.fields[k];
-            if spread.is_some() && self.rng.chance(1, 2) {
+            if spread.is_some() && (spread_only || self.rng.chance(1, 2)) {
                 self.tag(if k + 1 < case.fields.len() { "spread-fills-middle-field" } else { "spread-fills-last-field" });
                 continue;
             }
@@ -976,9 +985,14 @@ impl<'r> Builder<'r> {
                 });
             }
             if !many && self.rng.below(100) < self.cfg.datum_pct {
-                let t = self.some_type(Some(true));
+                // one time in four the datum is of a variant type (any of its cases may sit in the UTxO)
+                let variant = self.rng.chance(1, 4);
+                let t = self.some_type(Some(!variant));
                 inp.datum_is = Some(Ty::Custom(self.g.prog.types[t].name.clone()));
                 self.tag("input-with-datum");
+                if variant {
+                    self.tag("input-with-variant-datum");
+                }
             }
             // the redeemer may read the datums of the inputs declared *before* this one: the code under
             // test resolves an input name to a copy of the whole block, so reference cycles (an input
@@ -1307,6 +1321,15 @@ impl<'r> Builder<'r> {
         let inp = Input { name: name.clone(), from: Some(E::Party(owner.clone())), datum_is: Some(Ty::Custom(self.g.prog.types[t].name.clone())), ..Default::default() };
         self.cur.inputs.push((name.clone(), inp.datum_is.clone(), false));
         self.cur_tx.inputs.push(inp);
+        if self.rng.bool() {
+            // a second datum-carrying input, of a variant type (its UTxO holds any one of the cases)
+            let tv = self.some_type(Some(false));
+            let namev = self.name("in");
+            let inpv = Input { name: namev.clone(), from: Some(E::Party(owner.clone())), datum_is: Some(Ty::Custom(self.g.prog.types[tv].name.clone())), ..Default::default() };
+            self.cur.inputs.push((namev, inpv.datum_is.clone(), false));
+            self.cur_tx.inputs.push(inpv);
+            self.tag("input-with-variant-datum");
+        }
         let name2 = self.name("in");
         let mut inp2 = Input { name: name2.clone(), from: Some(E::Party(owner.clone())), ..Default::default() };
         inp2.redeemer = Some(self.any_datum(Pos::Datum));
